@@ -105,8 +105,10 @@ def check_c05(tier):
 
 
 def live_versions(findings, tier):
-    """Header policy against a live versioned server (added with the live-server drivers)."""
-    return {}
+    """Header policy against a live versioned server."""
+    cov = vlib.live_versioned("C05", tier, findings)
+    cov["requests"] = cov["live_requests"]
+    return cov
 
 
 def check_c11(tier):
